@@ -181,6 +181,7 @@ structure Sampler (α : Type) where
   infMeasure : α               -- informedSubSpace_->getMeasure()
   unMeasure : Option α         -- uninformedSubSpace_->getMeasure() when the space is compound
   spaceMeasure : α             -- space_->getMeasure()
+  all : List (Phs α) := []     -- allPhsPtrs_ (fix 09980379c, F36): every PHS built at construction
 
 def better (a b : α) : α := if a < b then a else b       -- betterCost
 def minOf : List α → Option α
@@ -336,7 +337,7 @@ def Sampler.sampleInnerFixed (s : Sampler α) (inB : List α × ρ → Bool) (fi
   if fin && (s.update c).cannotImprove c then (s.update c, ⟨false, cur, it, ds, false, false⟩)
   else s.sampleInner inB fin c ds cur it
 
-/-- public `sampleUniform(statePtr, maxCost)` -/
+/-- public `sampleUniform(statePtr, maxCost)` (code before F36/F130: building block and `_old_` witness) -/
 def Sampler.sample2 (s : Sampler α) (inB : List α × ρ → Bool) (fin : Bool) (c : α)
     (ds : List (Draw α ρ)) (cur : List α × ρ) : Sampler α × Out α ρ :=
   s.sampleInner inB fin c ds cur 0
@@ -371,6 +372,53 @@ def Sampler.sample3 (s : Sampler α) (inB : List α × ρ → Bool) (fin : Bool)
   let s' := if fin then s.update c else s
   (s', outer3 s.numIters (fun ds cur i => (s.sampleInner inB fin c ds cur i).2)
         (fun st => s'.hcost st.1) minC ds cur 0)
+
+/-! ### The sampler as it is coded NOW (fixes 09980379c = F36 and 5852532a8 = F130)
+
+`update`, `hcost`, `informedMeasure`, `sampleInner`, `sample2`, `sample3` above/below are the building blocks and at the
+same time the code BEFORE those two fixes (kept for the `_old_` witnesses).  The `…G restore degfix` versions select, per
+fix, whether it is present in the tree under test (the check detects this in the source); `…F = …G true true` is the
+current code: `updatePhsDefinitions` first restores `listPhsPtrs_` from `allPhsPtrs_`; `heuristicSolnCost` and
+`getInformedMeasure` run over `allPhsPtrs_`; the private `sampleUniform` returns false right after the update when the one
+PHS left cannot improve on `maxCost`. -/
+
+/-- `listPhsPtrs_ = allPhsPtrs_` -/
+def Sampler.restored (s : Sampler α) : Sampler α := { s with phss := s.all }
+
+def Sampler.pre (restore : Bool) (s : Sampler α) : Sampler α := if restore then s.restored else s
+
+def Sampler.updateG (restore : Bool) (s : Sampler α) (c : α) : Sampler α := (s.pre restore).update c
+
+def Sampler.hcostG (restore : Bool) (s : Sampler α) (x : List α) : Option α :=
+  if restore then minOf (s.all.map (·.pathLength x)) else s.hcost x
+
+def Sampler.informedMeasureG (restore : Bool) (s : Sampler α) (c : α) : α :=
+  if restore then s.restored.informedMeasure c else s.informedMeasure c
+
+def Sampler.sampleInnerG (restore degfix : Bool) (s : Sampler α) (inB : List α × ρ → Bool) (fin : Bool) (c : α)
+    (ds : List (Draw α ρ)) (cur : List α × ρ) (it : Nat) : Sampler α × Out α ρ :=
+  if degfix && fin && ((s.pre restore).update c).cannotImprove c then
+    ((s.pre restore).update c, ⟨false, cur, it, ds, false, false⟩)
+  else (s.pre restore).sampleInner inB fin c ds cur it
+
+def Sampler.sample2G (restore degfix : Bool) (s : Sampler α) (inB : List α × ρ → Bool) (fin : Bool) (c : α)
+    (ds : List (Draw α ρ)) (cur : List α × ρ) : Sampler α × Out α ρ :=
+  s.sampleInnerG restore degfix inB fin c ds cur 0
+
+def Sampler.sample3G (restore degfix : Bool) (s : Sampler α) (inB : List α × ρ → Bool) (fin : Bool) (minC c : α)
+    (ds : List (Draw α ρ)) (cur : List α × ρ) : Sampler α × Out α ρ :=
+  let s' := if fin then s.updateG restore c else s
+  (s', outer3 s.numIters (fun ds cur i => (s.sampleInnerG restore degfix inB fin c ds cur i).2)
+        (fun st => s'.hcostG restore st.1) minC ds cur 0)
+
+/-- the current code -/
+def Sampler.updateF (s : Sampler α) (c : α) : Sampler α := s.updateG true c
+def Sampler.hcostF (s : Sampler α) (x : List α) : Option α := s.hcostG true x
+def Sampler.informedMeasureF (s : Sampler α) (c : α) : α := s.informedMeasureG true c
+def Sampler.sample2F (s : Sampler α) (inB : List α × ρ → Bool) (fin : Bool) (c : α)
+    (ds : List (Draw α ρ)) (cur : List α × ρ) : Sampler α × Out α ρ := s.sample2G true true inB fin c ds cur
+def Sampler.sample3F (s : Sampler α) (inB : List α × ρ → Bool) (fin : Bool) (minC c : α)
+    (ds : List (Draw α ρ)) (cur : List α × ρ) : Sampler α × Out α ρ := s.sample3G true true inB fin minC c ds cur
 
 /-! ## RejectionInfSampler -/
 
